@@ -567,7 +567,7 @@ let handle (line : string) : string =
                              let (c, i) = List.assoc g !sends in
                              labels := (g, "DROPPED") :: !labels;
                              ms := mstep !ms (MPeer (nat_of_int c, Abandon (nat_of_int i))); drain c end)
-          | "T" -> let _ = next t in ()
+          | "T" | "TR" -> let _ = next t in ()
           | "CA" -> finish (); ms := mstep !ms MConnect; sel := curc ()
           | "CF" -> finish (); ms := mstep !ms MConnectFail
           | "SEL" -> let c = next_int t in if c + 1 <= curc () then sel := c + 1
@@ -581,7 +581,7 @@ let handle (line : string) : string =
                       sends := (g, (c, i)) :: !sends; incr nsends; errs := g :: !errs;
                       apply_send (Register (N.add h (N.of_nat (nat_of_int j))))
                     done
-          | "P" -> let h = next_n t in apply_peer !sel (Peer h)
+          | "P" | "PC" -> let h = next_n t in apply_peer !sel (Peer h)     (* PC: an answer of another command code - matched by its hop-by-hop id all the same *)
           | "PS" -> let h = next_n t in let _ = next t in apply_peer !sel (Peer h)
           | "PG" -> let h = next_n t in let _ = next t in let _ = next t in apply_peer !sel (Peer h)
           | "PT" -> let _ = next t in let _ = next t in ()
